@@ -112,16 +112,22 @@ func (a *AuthIp) parseAuthIp() error {
 		return errors.Wrapf(err, "failed to unmarshal config from %s", a.name)
 	}
 
-	IpMap.enable = auth.Enable
-
-	if !IpMap.enable {
-		return nil
-	}
-
+	// the admitted set becomes exactly the list in the file: add what is new first, then drop
+	// what is no longer listed, and only then switch the flag
+	listed := make(map[string]struct{}, len(auth.IpList))
 	for _, ip := range auth.IpList {
+		listed[ip] = struct{}{}
 		if !IpMap.Insert(ip, struct{}{}) {
 			logging.Debugf("set ip %s", ip)
 		}
 	}
+	for kv := range IpMap.Iter() {
+		if ip, ok := kv.Key.(string); ok {
+			if _, keep := listed[ip]; !keep {
+				IpMap.Del(ip)
+			}
+		}
+	}
+	IpMap.enable = auth.Enable
 	return nil
 }
